@@ -81,7 +81,7 @@ def run(tier):
     seed = core.seed()
     cases, nctx = build_corpus(tier, seed)
     return c01.run_flow("C17", cases, (30 if tier == "quick" else 50, 6), ("rc", "reply", "required_call", "unjustified_call"), tier, seed,
-                        scope=scope,
+                        scope=scope, vm_budget=250 if tier == "quick" else 3000,
                         rule="%d hand-listed contexts (top level, [], ..., |, ||, inside a word after a literal prefix, through plain / @bash / other-shell "
                              "definitions, two call variants) x probe output classes (plain, tab-separated descriptions, candidates with blanks) + seeded random "
                              "grammars containing commands + every tree with <= 3 nodes (4 in thorough, sampled) over {foo, <U>, two probes}; probes log identity, "
